@@ -1,6 +1,7 @@
 package main
 
 import (
+	"sync"
 	"crypto/md5"
 	"os"
 	"fmt"
@@ -113,6 +114,8 @@ func (w *World) genFunc(ctr *FuncContract) (rep *FuncReport) {
 	e.rootBinders = map[string]Val{}
 	e.loopVisited = map[int]string{}
 	e.loopIters = map[int]string{}
+	e.pendingFail = nil
+	e.failSeq = 0
 	env := e.contractEnv(fn, ctr, args, nil, entry, entry)
 	// free variables by their own names
 	for i, fv := range fn.FreeVars {
@@ -157,6 +160,13 @@ func (w *World) genFunc(ctr *FuncContract) (rep *FuncReport) {
 		for k, v := range e.rootBinders {
 			if _, ok := env2.vars[k]; !ok {
 				env2.vars[k] = v
+			}
+		}
+		if len(e.pendingFail) > 0 && len(rr.rets) > 0 {
+			lastRet := rr.rets[len(rr.rets)-1]
+			if e.reg.sortOf(lastRet.T) == "Any" {
+				e.curPos = fn.Pos()
+				e.failStopAtExit(rr.reach, lastRet.Term)
 			}
 		}
 		for i, cl := range ctr.Ensures {
@@ -607,14 +617,25 @@ func solveAll(dir string, reps []*FuncReport, filter func(*Obligation) bool, tim
 		<-done
 	}
 	// second chance, one at a time on an idle machine, for obligations that ran out of time under load
+	// (three at a time: each job races three solver processes, so at most nine of the sixteen cores are busy)
+	sem2 := make(chan struct{}, 3)
+	var wg2 sync.WaitGroup
 	for i, r := range results {
 		if r.Status == "undecided" && (r.Res.Verdict == "timeout" || r.Res.Verdict == "unknown") {
-			results[i] = solveOne(jobs[i], 3*timeoutS, 2*timeoutS)
-			if results[i].Status == "discharged" {
-				results[i].Res.Solver += "(2nd)"
-			}
+			wg2.Add(1)
+			go func(i int) {
+				defer wg2.Done()
+				sem2 <- struct{}{}
+				defer func() { <-sem2 }()
+				nr := solveOne(jobs[i], 3*timeoutS, 2*timeoutS)
+				if nr.Status == "discharged" {
+					nr.Res.Solver += "(2nd)"
+				}
+				results[i] = nr
+			}(i)
 		}
 	}
+	wg2.Wait()
 	sort.Slice(results, func(a, b int) bool { return results[a].O.Name < results[b].O.Name })
 	return results
 }
